@@ -151,6 +151,11 @@ def observe(cfg):
         big = prior.sample(size=4000, rng=np.random.default_rng(cfg["seed"] + 1))
         o["bigP"] = np.asarray(big["P"].value, float)
         o["bige"] = np.asarray(big["e"].value, float)
+        # the JOINT law of a row: K is drawn given the row's own (P, e)
+        bl = prior.sample(size=4000, generate_linear=True, rng=np.random.default_rng(cfg["seed"] + 2))
+        Pb, eb, Kb = np.asarray(bl["P"].value, float), np.asarray(bl["e"].value, float), np.asarray(bl["K"].value, float)
+        sg = np.clip(cfg["sK0"] * cfg["f"] * (Pb / cfg["P0"]) ** (-1 / 3) / np.sqrt(1 - eb**2), 0, cfg["maxK"] * cfg["f"])
+        o["zK"] = Kb / sg
     return o
 
 
@@ -190,6 +195,16 @@ def predicate(cfg, o):
     cdf = np.sort((np.log(o["bigP"]) - math.log(a)) / norm)
     ks = float(np.max(np.abs(cdf - (np.arange(len(cdf)) + 0.5) / len(cdf))))
     o["ks"] = ks
+    if "zK" in o:
+        from math import erf
+
+        z = np.sort(o["zK"])
+        cdfz = np.array([0.5 * (1 + erf(v / math.sqrt(2))) for v in z])
+        ksz = float(np.max(np.abs(cdfz - (np.arange(len(z)) + 0.5) / len(z))))
+        o["ks_K"] = ksz
+        if ksz > 0.045:  # 4000 draws: far beyond the 1e-6 quantile of the KS statistic
+            errs.append(f"K / sigma_K(P, e) of the drawn rows is not standard normal (KS distance {ksz:.3f} over 4000 draws, sd {np.std(z):.3f}): "
+                        "K is not drawn given the row's own period and eccentricity")
     if ks > 0.04:  # 4000 draws: the 1e-5 quantile of the KS statistic is 0.038
         errs.append(f"period draws do not follow the log-uniform CDF (KS distance {ks:.3f} over 4000 draws)")
     return errs
@@ -222,6 +237,7 @@ def run_cases(ctx, cases):
         for e in predicate(cfg, o)[:2]:
             ctx.fail("predicate", SIG, e, case=cfg)
         stats["ks_max"] = max(stats["ks_max"], o.get("ks", 0.0))
+        stats["ks_K_max"] = max(stats.get("ks_K_max", 0.0), o.get("ks_K", 0.0))
         a, b = cfg["a"], cfg["b"]
         for x, lp in zip(cfg["xs"], o["logp"]):
             if math.isnan(lp):
@@ -316,7 +332,7 @@ def run(ctx):
         "each), 4000 draws for support and KS distance; non-trivial = a configuration whose observations were all compared",
         assumptions=["numpy / pymc draw from the built-in uniform, Beta and Normal distributions they are asked for; the Beta normaliser and the "
                      "constant terms of uniform angles are not checked (row differences only)",
-                     "the KS distance over 4000 seeded draws is supportive evidence, not a certificate",
+                     "the KS distances over 4000 seeded draws (periods against the log-uniform CDF; K / sigma_K(P_row, e_row) against the standard normal) are supportive evidence, not certificates",
                      "rounding: pytensor keeps float32-representable Python-float parameters as float32 constants, so densities, draws and sigma are compared to 2e-6 relative, ln_prior differences to 1e-5 (1+|d|)"],
         trusted_extra=["Coq-Interval through Base/RealEnc.v (ln, exp, sqrt at 60 bits)", "translator tools/consts2v.py (Kipping Beta parameters; fail-closed)"],
     )
